@@ -52,6 +52,8 @@ pub fn generate(tier: Tier, rng: &mut Rng, sink: &mut dyn FnMut(RtCase)) {
     };
     gen_empty(&mut g);
     gen_exh(&mut g);
+    gen_intm(&mut g);
+    gen_sinkfail(&mut g);
     gen_rand(&mut g);
     gen_wide(&mut g);
     gen_burst(&mut g);
@@ -323,6 +325,20 @@ fn step(
     }
     let i = in_flight[rng.below(in_flight.len())];
     let kind = complete(rng, i);
+    if knobs.spurious && rng.chance(12, 100) {
+        // a completion followed by single polls instead of a full settle, possibly with a signal
+        // arriving between two polls of the self-woken task
+        let mut evs = vec![CallEv::nosettle(kind)];
+        for _ in 0..rng.below(3) {
+            evs.push(CallEv::nosettle(CallEvKind::Poll));
+        }
+        if can_int && st.signals < 3 && rng.chance(1, 2) {
+            st.signals += 1;
+            evs.push(CallEv::nosettle(CallEvKind::Interrupt));
+        }
+        evs.push(ev(CallEvKind::Settle));
+        return Some(evs);
+    }
     Some(vec![ev(kind)])
 }
 
@@ -698,6 +714,142 @@ fn gen_exh(g: &mut Gen) {
 }
 
 // ---------------------------------------------------------------------------------------------
+// intm: one interrupt at every *micro* position of the canonical run: the settle after each
+// completion is decomposed into single polls, so the signal also arrives between two polls of the
+// self-woken task (e.g. after the poll in which a function finished and the ready queue was found
+// empty, before the poll in which the queuer delivers its successor)
+// ---------------------------------------------------------------------------------------------
+
+/// Continues `evs` with single polls while the flag is set, else the completion (ok) of the first
+/// in-flight function, without ever settling.
+fn continue_micro(g: &mut FnGraph<Fun>, n: usize, cfg: &CallCfg, evs: &mut Vec<CallEv>) {
+    let mut run = CallRun::new(gref(g, cfg.mutable), cfg);
+    for e in evs.iter() {
+        if run.ended() {
+            break;
+        }
+        run.apply(e);
+    }
+    let cap = evs.len() + 8 * n + 16;
+    while evs.len() < cap && !run.ended() && run.status() == Status::Pending {
+        let in_flight = run.in_flight();
+        let e = if run.flag() {
+            CallEv::nosettle(CallEvKind::Poll)
+        } else if in_flight.is_empty() {
+            break;
+        } else {
+            CallEv::nosettle(CallEvKind::Complete(in_flight[0], true))
+        };
+        run.apply(&e);
+        evs.push(e);
+    }
+    run.finish();
+}
+
+fn gen_intm(g: &mut Gen) {
+    for (n, edges) in small_dags(3) {
+        if n == 0 {
+            continue;
+        }
+        let ops = plain_ops(n, &edges);
+        let mut graph = must_build(&ops);
+        for api in [Api::ForEach, Api::Fold, Api::TryForEach] {
+            for rev in [false, true] {
+                for strat in [Strat::Fin, Strat::Pn(0), Strat::Pn(1)] {
+                    for incl in [false, true] {
+                        let mut cfg = CallCfg::plain(api);
+                        cfg.with = true;
+                        cfg.rev = rev;
+                        cfg.strat = strat;
+                        cfg.incl = incl;
+                        let mut canon = Vec::new();
+                        continue_micro(&mut graph, n, &cfg, &mut canon);
+                        for pos in 1..canon.len() {
+                            // positions right after a completion or a poll, before the next poll
+                            if !matches!(canon[pos].kind, CallEvKind::Poll) {
+                                continue;
+                            }
+                            let mut evs = canon[..pos].to_vec();
+                            evs.push(CallEv::nosettle(CallEvKind::Interrupt));
+                            continue_micro(&mut graph, n, &cfg, &mut evs);
+                            g.emit("intm", &ops, Body::X(cfg.clone(), evs));
+                        }
+                    }
+                }
+            }
+        }
+    }
+}
+
+// ---------------------------------------------------------------------------------------------
+// sinkfail: every function without successors (in the stream direction) fails, everything else
+// succeeds first: the largest number of failures a run can collect (more than the widest rank of
+// the graph, more than a limit), on every labelled DAG with up to 4 functions
+// ---------------------------------------------------------------------------------------------
+
+fn gen_sinkfail(g: &mut Gen) {
+    let mut k = 0usize;
+    for (n, edges) in small_dags(4) {
+        if n < 2 {
+            continue;
+        }
+        let ops = plain_ops(n, &edges);
+        let mut graph = must_build(&ops);
+        for rev in [false, true] {
+            let is_sink: Vec<bool> = (0..n)
+                .map(|v| !edges.iter().any(|&(a, b)| if rev { b == v } else { a == v }))
+                .collect();
+            for lim in [0usize, 1, 2] {
+                k += 1;
+                if n == 4 && lim == 1 && k % 2 == 0 {
+                    continue; // thin out the largest class
+                }
+                let mut cfg = CallCfg::plain(Api::TryForEach);
+                cfg.rev = rev;
+                cfg.with = rev;
+                cfg.lim = lim;
+                cfg.ctl = k % 3 == 0;
+                cfg.mutable = k % 2 == 1;
+                let mut evs = vec![ev(CallEvKind::Settle)];
+                {
+                    let mut run = CallRun::new(gref(&mut graph, cfg.mutable), &cfg);
+                    run.apply(&evs[0]);
+                    let cap = 6 * n + 10;
+                    while evs.len() < cap && !run.ended() && run.status() == Status::Pending {
+                        let in_flight = run.in_flight();
+                        let e = if run.flag() {
+                            ev(CallEvKind::Settle)
+                        } else if in_flight.is_empty() {
+                            break;
+                        } else if let Some(&i) = in_flight.iter().find(|&&i| !is_sink[i]) {
+                            ev(CallEvKind::Complete(i, true))
+                        } else {
+                            // only sinks are in flight: fail them all, the last one settles
+                            let mut batch: Vec<CallEv> = in_flight
+                                .iter()
+                                .map(|&i| CallEv::nosettle(CallEvKind::Complete(i, false)))
+                                .collect();
+                            if let Some(last) = batch.last_mut() {
+                                last.nosettle = false;
+                            }
+                            for e in &batch[..batch.len() - 1] {
+                                run.apply(e);
+                                evs.push(e.clone());
+                            }
+                            batch[batch.len() - 1].clone()
+                        };
+                        run.apply(&e);
+                        evs.push(e);
+                    }
+                    run.finish();
+                }
+                g.emit("sinkfail", &ops, Body::X(cfg, evs));
+            }
+        }
+    }
+}
+
+// ---------------------------------------------------------------------------------------------
 // rand
 // ---------------------------------------------------------------------------------------------
 
@@ -721,7 +873,7 @@ fn wide_graphs() -> Vec<(&'static str, usize, Vec<Op>)> {
     for n in [17usize, 33, 65, 129, 300] {
         out.push(("wide-indep", n, plain_ops(n, &[])));
     }
-    for n in [17usize, 65] {
+    for n in [17usize, 65, 130, 257] {
         let fan_out: Vec<(usize, usize)> = (1..n).map(|i| (0, i)).collect();
         out.push(("wide-fanout", n, plain_ops(n, &fan_out)));
         let fan_in: Vec<(usize, usize)> = (0..n - 1).map(|i| (i, n - 1)).collect();
@@ -733,9 +885,16 @@ fn wide_graphs() -> Vec<(&'static str, usize, Vec<Op>)> {
 fn gen_wide(g: &mut Gen) {
     for (family, n, ops) in wide_graphs() {
         let mut graph = must_build(&ops);
+        // the model is slow on the largest fans: in the quick tier they get one call and the
+        // stream direction in which the hub has all the predecessors
+        let big = n >= 130 && family != "wide-indep";
+        let reduced = big && matches!(g.tier, Tier::Quick);
         for api in [Api::ForEach, Api::TryForEach] {
             for mutable in [false, true] {
                 for lim in [0usize, 4] {
+                    if reduced && !(api == Api::ForEach && !mutable && lim == 0) {
+                        continue;
+                    }
                     let mut cfg = CallCfg::plain(api);
                     cfg.mutable = mutable;
                     cfg.lim = lim;
@@ -747,6 +906,9 @@ fn gen_wide(g: &mut Gen) {
         }
         // Stream: yield everything that is ready, then drop in random order interleaved with polls.
         for rev in [false, true] {
+            if reduced && rev != (family == "wide-fanout") {
+                continue;
+            }
             let cfg = StreamCfg {
                 rev,
                 int: false,
